@@ -3,15 +3,10 @@ from common import C, short, local_refs
 from cfg import path_leaf
 import effects
 
-EXPLANATION = (
-    "Reaching-definition rules on the CFG: MscStepFromGeo returns either its argument or "
-    "clamp(., gstep, true_step) on every path; MscStepToGeo's last definition of result.step on "
-    "every path is min(result.step, tstep) (never lengthens); UrbanMsc stores/restores the step "
-    "through these functors; the range-limited energy loss returns the full energy.")
-NOT_DECIDED = ("interpolation between knots, continuity, extrapolation, monotone inverses, "
-               "non-negativity of the grid calculators (numeric; ulp-adjacent behaviour)")
+EXPLANATION = ("Reaching-definition rules on the CFG: MscStepFromGeo returns either its argument or clamp(., gstep, true_step) on every path; MscStepToGeo's last definition of result.step on every path is min(result.step, tstep); UrbanMsc stores/restores the step through these functors; the range-limited energy loss returns the full energy. Table lookups (XsCalculator, RangeCalculator, InverseRangeCalculator, GenericCalculator): the bin search is dominated by the false edges of the tests against front() and back(); abscissa and ordinate are read at idx and idx+1 of the found bin; ValueGridXsBuilder's index correction tests the predicate its postcondition states; UniformGrid::find bounds the float-computed bin.")
+NOT_DECIDED = ('values between knots (interpolation arithmetic), continuity, monotone inverses, non-negativity of the grid calculators (numeric)')
 
-TECHNIQUE = ('reaching definitions on the CFG: every return / last definition is a clamp/min with the required bounds')
+TECHNIQUE = ('reaching definitions on the CFG (every return / last definition of the MSC path conversions is a clamp/min with the required bounds); guard dominance of the bin search by the range tests; index-expression agreement of the knot accesses; sibling agreement between the roundoff correction and its stated postcondition; forward path walk for an integer bound on the float-computed bin')
 
 UNITS = [
     "src/celeritas/global/alongstep/AlongStepUniformMscAction.cc",
